@@ -636,6 +636,9 @@ func (p *pp) handleMethods(verb rune) (handled bool)
   requires [C05,C06] hasType(p.arg, "interfaces.SafeValue") ==> p.buf.gctx != 0
   -- ... and so does an operand whose type is registered as safe
   requires [C05] !isnil(p.arg) && safeTypeRegistry[reflect.TypeOf(p.arg)] ==> p.buf.gctx != 0
+  -- Safe()/Unsafe() wrappers are recognised by their dynamic type BEFORE any method dispatch (they have Format and
+  -- SafeMessage methods of their own, which would flatten the wrapped value into a string): none reaches this point
+  requires [C05,C06,C08,C17] !hasType(p.arg, "redact.safeWrapper") && !hasType(p.arg, "redact.unsafeWrap")
   may-panic
   class 2 before "p.fmt.fmtS(stringer.GoString())"
   ensures-always B(p) && Same(p) && WP(p.fmt)
@@ -649,6 +652,9 @@ func (p *pp) handleSpecialValues(value reflect.Value, t reflect.Type, verb rune,
   public verb
   requires B(p) && WP(p.fmt)
   requires [C05,C08] depth >= 0
+  requires t == value.Type()
+  -- what is not handled here is not a wrapper, whatever the static type of the slot it sits in
+  ensures [C05,C06,C08,C17] !handled && value.CanInterface() ==> !hasType(value.Interface(), "redact.safeWrapper") && !hasType(value.Interface(), "redact.unsafeWrap")
   may-panic
   assume [C01] frag(value.String(), len(value.String())) before "p.buf.WriteString(value.String())"
   assume [C01] frag(value.Bytes(), len(value.Bytes())) && ref(value.Bytes()) != ref(p.buf.buf) before "p.buf.Write(value.Bytes())"
@@ -661,6 +667,8 @@ func (p *pp) handleSpecialValues(value reflect.Value, t reflect.Type, verb rune,
 
 func (p *pp) printArg(arg interface{}, verb rune)
   public verb
+  -- registering the types of the Safe()/Unsafe() wrappers themselves with RegisterSafeType is outside the claim
+  assume [C05,C06,C08,C17] !safeTypeRegistry[safeWrapperType] && !safeTypeRegistry[unsafeWrapperType]
   ghost p.gdone = true before "p.printValue(f, verb, 0)"
   ghost p.gdone = true before "p.printValue(reflect.ValueOf(f), verb, 0)"
   ensures [C15] verb == 119 && !old(p.erroring) && !old(p.fmt.sharpV) ==> (p.wrapErrs && !isnil(p.wrappedErr) && hasType(p.wrappedErr, "error") && old(p.wrapErrs) && isnil(old(p.wrappedErr))) || (!p.wrapErrs && isnil(p.wrappedErr))
@@ -673,6 +681,7 @@ func (p *pp) printArg(arg interface{}, verb rune)
   ensures-always [C11] $panic ==> p.panicking
   ensures [C15] verb != 119 ==> KW(p)
   ensures KF(p) && KE(p)
+  ensures [C15] old(WDead(p)) ==> WDead(p)
   ensures-always [C11] EV(p, verb)
 
 func (p *pp) printValue(value reflect.Value, verb rune, depth int)
